@@ -60,6 +60,9 @@ class World:
         self.ctx = ctx
         self.mods = mods
         self.impl = impl
+        reg = getattr(ctx, 'register_world', None)
+        if reg is not None:
+            reg(self)
         self.clock = clock or env.Clock(0)
         self.vfs = vfs or env.VFS()
         self.device = device
